@@ -4,6 +4,8 @@
 //! `PANIC` for that line (the process keeps going).
 use ff_zeroize::{Field, PrimeField, PrimeFieldRepr, SqrtField};
 use pairing_plus::bls12_381::{Fq, Fq12, Fq2, Fq6, FqRepr, Fr, FrRepr, G1Affine, G2Affine, G1, G2};
+use pairing_plus::hash_to_curve::HashToCurve;
+use pairing_plus::hash_to_field::{ExpandMsgXmd, ExpandMsgXof};
 use pairing_plus::map_to_curve::MapToCurve;
 use pairing_plus::verif_hooks as vh;
 use pairing_plus::{CurveAffine, CurveProjective, SubgroupCheck};
@@ -75,6 +77,13 @@ fn opt<T, F: Fn(&T) -> String>(o: Option<T>, f: F) -> String {
     }
 }
 
+fn unhex(s: &str) -> Vec<u8> {
+    if s == "-" {
+        return vec![];
+    }
+    (0..s.len() / 2).map(|i| u8::from_str_radix(&s[2 * i..2 * i + 2], 16).unwrap()).collect()
+}
+
 fn run(op: &str, a: &[&str]) -> String {
     match op {
         // ---- tower
@@ -128,6 +137,20 @@ fn run(op: &str, a: &[&str]) -> String {
         // ---- scalar multiplication (generator times k) through the different paths
         "g1_mul" => { let mut p = G1::one(); p.mul_assign(fr_repr(a[0])); g1a(&p.into_affine()) }
         "g2_mul" => { let mut p = G2::one(); p.mul_assign(fr_repr(a[0])); g2a(&p.into_affine()) }
+        // ---- full hash_to_curve / encode_to_curve (message and tag given as hex strings; "-" = empty)
+        "g1_h2c_sha256" | "g1_e2c_sha256" | "g2_h2c_sha256" | "g2_e2c_sha256" | "g1_h2c_shake128" | "g2_h2c_shake128" | "g1_h2c_sha512" => {
+            let msg = unhex(a[0]);
+            let dst = unhex(a[1]);
+            match op {
+                "g1_h2c_sha256" => g1a(&<G1 as HashToCurve<ExpandMsgXmd<sha2::Sha256>>>::hash_to_curve(&msg, &dst).into_affine()),
+                "g1_e2c_sha256" => g1a(&<G1 as HashToCurve<ExpandMsgXmd<sha2::Sha256>>>::encode_to_curve(&msg, &dst).into_affine()),
+                "g2_h2c_sha256" => g2a(&<G2 as HashToCurve<ExpandMsgXmd<sha2::Sha256>>>::hash_to_curve(&msg, &dst).into_affine()),
+                "g2_e2c_sha256" => g2a(&<G2 as HashToCurve<ExpandMsgXmd<sha2::Sha256>>>::encode_to_curve(&msg, &dst).into_affine()),
+                "g1_h2c_sha512" => g1a(&<G1 as HashToCurve<ExpandMsgXmd<sha2::Sha512>>>::hash_to_curve(&msg, &dst).into_affine()),
+                "g1_h2c_shake128" => g1a(&<G1 as HashToCurve<ExpandMsgXof<sha3::Shake128>>>::hash_to_curve(&msg, &dst).into_affine()),
+                _ => g2a(&<G2 as HashToCurve<ExpandMsgXof<sha3::Shake128>>>::hash_to_curve(&msg, &dst).into_affine()),
+            }
+        }
         "profile" => (if cfg!(debug_assertions) { "dev" } else { "release" }).to_string(),
         _ => format!("UNKNOWN-OP {}", op),
     }
